@@ -149,4 +149,5 @@ package registration
 //@   ensures[C13,C01,* othernodes] forall j String :: req == nil || j != k ==> unchangedNode(j)
 //@   ensures[C13,* othertokens] forall j String :: req == nil || j != tid ==> unchangedToken(j)
 //@   ensures[C13,* consumed] req != nil && !wrapflow && !unchangedNode(k) ==> !StHas("token", tid)
+//@   ensures[C13,* tokenflowonly] req == nil || wrapflow || len(nonce) == 32 ==> forall j String :: unchangedToken(j)
 //@   modifies StNodeInfo, StToken, nosharedappend
